@@ -100,6 +100,7 @@ fn profile_for(prop: &str) -> Profile {
             p.p_fault = 10;
         }
         "C11" => {
+            p.max_bidir = 2;
             p.p_bad_bind = 45;
             p.p_omit = 25;
             p.p_shadow = 12;
